@@ -336,6 +336,75 @@ def run_c19(tier, seed):
                 for ns in (False, True):
                     for outf in (None, 'merged_out.xml'):
                         jobs.append(('merge', ms, {'incomplete': inc, 'non_strict': ns, 'outfile': outf}))
+        # the same commands over a (fake) S3 bucket: -b/-p/-s/-k
+        s3_names = [n for n in sorted(pool) if pool[n][0] in ('xml', 'notxml')]
+        s3_objects = {'pfx/' + n: pool[n][1].encode('utf-8') for n in s3_names}
+        s3_jobs = []
+        for suffix in (None, '.mos.xml', '.xml', '.txt'):
+            eff = suffix or '.mos.xml'
+            keys = [k for k in sorted(s3_objects) if k.endswith(eff)]
+            for cmd in ('detect', 'inspect'):
+                s3_jobs.append((cmd, keys, ['-b', 'bucket', '-p', 'pfx/'] + (['-s', suffix] if suffix else [])))
+        for k in list(sorted(s3_objects))[:: max(1, len(s3_objects) // 12)]:
+            s3_jobs.append(('detect', [k], ['-b', 'bucket', '-k', k]))
+            s3_jobs.append(('inspect', [k], ['-b', 'bucket', '-k', k]))
+        reqs = []
+        for cmd, keys, argv in s3_jobs:
+            files = [[k, TJ.parse(pool[k[4:]][1]) if pool[k[4:]][0] == 'xml' else 'notxml'] for k in keys]
+            reqs.append({'op': 'cli', 'cmd': cmd, 'files': files})
+        for (cmd, keys, argv), r in zip(s3_jobs, lean.run_batch(reqs)):
+            coll_family.install_fake_s3(coll_family.FakeS3(s3_objects, page_size=7))
+            so, se, rv = run_cli([cmd] + argv)
+            status = 0 if rv is None else rv
+            oc.evaluations += 1
+            oc.in_domain += 1
+            oc.count('cmd:' + cmd + '/s3')
+            rec = {'kind': 'cli-s3', 'cmd': cmd, 'argv': argv, 'keys': keys, 'label': f'{cmd} {" ".join(argv)}'}
+            m_out = ''.join(l[1] + '\n' for l in r['lines'] if l[0] == 'out')
+            m_err = ''.join(l[1] + '\n' for l in r['lines'] if l[0] == 'err')
+            if keys and r['status'] == 0 and (so, se, status) != (m_out, m_err, 0):
+                oc.disagreements.append(dict(rec, what='cli output (S3)', impl={'stdout': so[:1500], 'stderr': se[:600], 'status': status},
+                                             model={'stdout': m_out[:1500], 'stderr': m_err[:600]}))
+            exp_out, exp_err = [], []
+            for k in keys:
+                spec = pool[k[4:]]
+                try:
+                    with warnings.catch_warnings():
+                        warnings.simplefilter('ignore')
+                        mo = impl.MosFile.from_string(spec[1].encode('utf-8'))
+                    exp_out.append(f'{k}: {type(mo).__name__}' + (' (completed)' if mo.completed else ''))
+                except Exception:  # noqa: BLE001
+                    exp_err.append(k)
+            got = [l for l in split_lines(so) if any(l.startswith(k + ': ') for k in keys)]
+            bad = []
+            if cmd == 'detect' and (got != exp_out or status != 0):
+                bad.append('detect over S3 keys differs from the library classification of each object in listing order')
+            if (cmd == 'detect' or r['status'] == 0) and [l.split(': ')[0] for l in split_lines(se) if ': Invalid' in l] != exp_err:
+                bad.append('invalid objects are not all marked (or others were skipped)')
+            if cmd == 'inspect' and r['status'] == 0 and status != 0:
+                bad.append(f'inspect aborted with {status}: {se[-200:]}')
+            if bad:
+                oc.failing.append(dict(rec, spec='; '.join(bad), impl={'stdout': so[:1200], 'stderr': se[:600], 'status': status}))
+            oc.nontrivial.add(stable_hash(['s3', cmd, argv]))
+        # merge over S3: history collections stored as objects
+        for hn in [ms for ms in merge_sets if all(pool[n][0] == 'xml' for n in ms)][:12]:
+            objs = {f'coll/{i:03d}_{n}': pool[n][1].encode('utf-8') for i, n in enumerate(hn)}
+            paths = [os.path.join(root, n) for n in hn]
+            for inc in (False, True):
+                for ns in (False, True):
+                    coll_family.install_fake_s3(coll_family.FakeS3(objs, page_size=3))
+                    so, se, rv = run_cli(['merge', '-b', 'bucket', '-p', 'coll/', '-s', '.xml'] + (['-i'] if inc else []) + (['-n'] if ns else []))
+                    status = 0 if rv is None else rv
+                    sf, ef, rf = run_cli(['merge', '-f'] + paths + (['-i'] if inc else []) + (['-n'] if ns else []))
+                    oc.evaluations += 1
+                    oc.in_domain += 1
+                    oc.count('cmd:merge/s3')
+                    if (so, status) != (sf, 0 if rf is None else rf):
+                        oc.failing.append({'kind': 'cli-s3', 'cmd': 'merge', 'argv': ['-b', 'bucket', '-p', 'coll/'], 'keys': sorted(objs),
+                                           'label': f'merge over S3 incomplete={inc} non_strict={ns}',
+                                           'spec': 'merge over S3 keys gives what merge over files with the same contents gives',
+                                           'impl': {'s3': {'status': status, 'stdout': so[:600], 'stderr': se[:300]},
+                                                    'files': {'status': rf, 'stdout': sf[:600]}}})
         reqs = []
         for cmd, lst, opts in jobs:
             r = {'op': 'cli', 'cmd': cmd, 'files': model_files(pool, lst, root)}
@@ -453,5 +522,11 @@ def replay_c19(pid, fl):
     finally:
         shutil.rmtree(root, ignore_errors=True)
     print('re-run `run.py check C19` to evaluate the recorded case against the model and the library')
+    from . import registry
+    return registry.run_check(pid, 'quick', 0)
+
+
+def replay_c19_s3(pid, fl):
+    print('S3 command-line case: re-running the C19 check (the bucket contents are generated by the check)')
     from . import registry
     return registry.run_check(pid, 'quick', 0)
